@@ -342,7 +342,7 @@ static std::string run_case(const CaseFile &c) {
             if (c2) (void) cif_destroy(c2);
         }
     }
-    if (msg.empty() && c.kv.count("control")) msg = check_silent(c.get("control"), c.get("control_expected"), po, "NEGATIVE CONTROL: the un-planted host");
+    if (msg.empty() && c.kv.count("control")) { POpts cpo = po; cpo.mfd = 1; msg = check_silent(c.get("control"), c.get("control_expected"), cpo, "NEGATIVE CONTROL: the un-planted host"); }
     if (msg.empty()) msg = guard.check();
     return msg;
 }
@@ -361,6 +361,8 @@ struct Plan {
     std::vector<Tok> control_toks;
 };
 struct Env { uint32_t seed; int dialect; g::ValueOpts vo; };
+// development aid only (never set by vcheck): C12_KNOWN=1 lets the planters produce the variants that are excluded as known findings (to re-derive witnesses)
+static bool gen_known() { static const bool k = getenv("C12_KNOWN") != nullptr; return k; }
 
 template <class T> static const T &pick(const std::vector<T> &v) { return v[(size_t) *g::range(0, (int) v.size() - 1)]; }
 
@@ -833,6 +835,9 @@ static bool p_missing_space(Work &W, Env &E, Plan &P) {
     }
     P.toks[(size_t) i].glue = true; P.toks[(size_t) i].nl_after = false;
     P.first = {CIF_MISSING_SPACE}; P.lo_tok = i; P.lo_mode = 1; P.hi_tok = i + 1;
+    // abc[ : the one missing blank is noticed twice, by the bare-word scan that stops at the bracket and by the start of the next token.  The statement
+    // does not limit how often a defect is reported: a repeated CIF_MISSING_SPACE is accepted for this variant.
+    if (variant == "bare+open") P.follow = {CIF_MISSING_SPACE};
     pos_labels(W.R, W.h, i, P); P.pos.push_back(variant);
     int k = b.kind; P.pos.push_back(k == T_NAME ? "then-name" : k == T_LOOPKW ? "then-loop" : k == T_BLOCK ? "then-block" : k == T_FRAME || k == T_FEND ? "then-save" : b.keylen ? "then-key" : k == T_OPEN ? "then-open" : "then-value");
     return true;
@@ -917,7 +922,8 @@ static bool p_null_key(Work &W, Env &E, Plan &P) {
     // F-NULLKEY-SPACE (known): with the value attached (":v") the accepted CIF_NULL_KEY is followed by a spurious CIF_MISSING_SPACE between the
     // colon and the value.  Excluded by construction: the value is separated from the colon by white space (": v").
     count_excluded("F-NULLKEY-SPACE");
-    insert_toks(P.toks, at, {raw(":"), raw(m == 0 ? "zqNULLKEYzq" : m == 1 ? "'zqNULLKEYzq'" : "\"zqNULLKEYzq\"")});
+    if (gen_known()) { insert_toks(P.toks, at, {raw(m == 0 ? ":zqNULLKEYzq" : m == 1 ? ":'zqNULLKEYzq'" : ":\"zqNULLKEYzq\"")}); P.pos.push_back("value-attached"); }
+    else insert_toks(P.toks, at, {raw(":"), raw(m == 0 ? "zqNULLKEYzq" : m == 1 ? "'zqNULLKEYzq'" : "\"zqNULLKEYzq\"")});
     P.first = {CIF_NULL_KEY}; P.lo_tok = at; P.hi_tok = at + 1;
     return true;
 }
@@ -1036,14 +1042,23 @@ static bool p_line_length(Work &W, Env &E, Plan &P, bool control) {
     if (!start(W, E, P)) return false;
     int L = control ? (*g::chance(75) ? 2048 : *g::range(2040, 2047)) : *g::range(2049, 2060);
     int i;
+    // F-KEYCOL (known): the column counter misses the colon of every table key, so an over-long line that holds a key is measured one character
+    // short per key.  Excluded by construction: the long line holds no table key (the 2048 control is not affected: it must be silent either way).
+    bool avoid_key = !control && !gen_known(); bool dropped = false;
+    auto keyed_line = [&](const Tok &t) { return t.keylen > 0 && (variant == 0 ? t.s.find('\n') == std::string::npos : true); };
     if (variant == 0) {
-        i = *g::range(1, (int) W.R.t.size() - 1);
+        std::vector<int> c0; for (int k = 1; k < (int) W.R.t.size(); k++) { if (avoid_key && keyed_line(W.R.t[(size_t) k])) { dropped = true; continue; } c0.push_back(k); }
+        if (dropped) count_excluded("F-KEYCOL");
+        i = pick(c0);
+        if (keyed_line(W.R.t[(size_t) i])) P.pos.push_back("line-has-key");
         std::string &s = P.toks[(size_t) i].s; size_t nl = s.rfind('\n');
         int have = cplen8(nl == std::string::npos ? s : s.substr(nl + 1));
         s += " #" + u8(filler(L - have - 2));
         P.lo_tok = i; P.lo_mode = 1;
     } else {
-        auto c = scalar_tokens(W.R); if (c.empty()) return false;
+        std::vector<int> c; for (int k : scalar_tokens(W.R)) { if (avoid_key && variant != 2 && keyed_line(W.R.t[(size_t) k])) { dropped = true; continue; } c.push_back(k); }
+        if (dropped) count_excluded("F-KEYCOL");
+        if (c.empty()) return false;
         i = pick(c); const Tok &t = W.R.t[(size_t) i];
         int plen = cplen8(t.s.substr(0, (size_t) t.keylen));
         if (variant == 1) {
@@ -1052,6 +1067,7 @@ static bool p_line_length(Work &W, Env &E, Plan &P, bool control) {
             replace_scalar(W, P, i, nv, q + u8(T) + q, q + u8(T) + q);
             P.control_toks[(size_t) i].s = W.R.t[(size_t) i].s; *locate(P.control, W.R, t) = *locate(W.h, W.R, t);   // the control keeps the host's own value
             P.lo_tok = i;
+            if (t.keylen > 0) P.pos.push_back("line-has-key");
         } else {
             int nlines = *g::range(1, 3), li = *g::range(0, nlines - 1);
             bool text = variant == 2;
@@ -1068,6 +1084,7 @@ static bool p_line_length(Work &W, Env &E, Plan &P, bool control) {
             replace_scalar(W, P, i, Value::chr(T, true), open + u8(T) + close, open + u8(T) + close);
             P.control_toks[(size_t) i].s = W.R.t[(size_t) i].s; *locate(P.control, W.R, t) = *locate(W.h, W.R, t);
             P.lo_tok = i; P.lo_add = li + ((text && t.keylen > 0) ? 1 : 0);
+            if (!text && li == 0 && t.keylen > 0) P.pos.push_back("line-has-key");
         }
     }
     P.toks[(size_t) i].nl_before = P.toks[(size_t) i].nl_after = true;
@@ -1108,6 +1125,8 @@ static bool p_disallowed_char(Work &W, Env &E, Plan &P) {
     P.hi_tok = i + 1;
     P.first = {CIF_DISALLOWED_CHAR};
     if (v1) P.po.enc = 1;
+    // U+0080 under CIF 1.1 breaks two rules at once (a C1 control, and not ASCII): it may be reported once per rule
+    if (v1 && bad == 0x80) P.follow = {CIF_DISALLOWED_CHAR};
     char nm[24]; snprintf(nm, sizeof nm, "U+%04X", (unsigned) bad); P.pos.push_back(nm);
     pos_labels(W.R, W.h, i, P);
     return true;
@@ -1209,6 +1228,11 @@ int main(int argc, char **argv) {
         });
     };
     e.replay = run_case;
-    e.classify = [](const CaseFile &) { return std::string(); };
+    e.classify = [](const CaseFile &c) {
+        const std::string cls = c.get("cls"), pos = " " + c.get("pos");
+        if (cls == "overlength-line" && pos.find(" line-has-key ") != std::string::npos) return std::string("F-KEYCOL");
+        if (cls == "null-key" && pos.find(" value-attached ") != std::string::npos) return std::string("F-NULLKEY-SPACE");
+        return std::string();
+    };
     return engine_main(argc, argv, e);
 }
